@@ -104,10 +104,14 @@ type vEvsw struct {
 	types.EventSwitch // nil: every other method is unused by the code under test
 	fired             []string
 	unanswered        int
+	onFire            func(event string)
 }
 
 func (e *vEvsw) FireEvent(event string, data events.EventData) {
 	e.fired = append(e.fired, event)
+	if e.onFire != nil {
+		e.onFire(event)
+	}
 	switch d := data.(type) {
 	case types.EventDataHookNewRound:
 		d.ResCh <- types.NewRoundResult{}
@@ -310,3 +314,7 @@ func vOnes(b *gcmn.BitArray) int {
 	}
 	return n
 }
+
+type vNopService struct{ gcmn.BaseService }
+
+func vNewBase() *gcmn.BaseService { return gcmn.NewBaseService("verif", &vNopService{}) }
